@@ -14,7 +14,7 @@ func init() { Registry["C10"] = C10 }
 
 const (
 	c10Bucket = "lockb"
-	c10Key    = "pkey"
+	c10Key    = "records/meta" // below an explicit directory object; the last element collides with the sidecar store's own directory name
 )
 
 var c10Body = []byte("PROTECTED-PAYLOAD-c10 0123456789")
@@ -138,6 +138,9 @@ func c10Ops() []c10Op {
 			}
 			return NewReq("POST", "/"+c10Bucket, "delete", nil, []byte("<Delete><Object><Key>scratch/tmp</Key>"+sv+"</Object><Object><Key>"+c10Key+"</Key>"+v+"</Object></Delete>"))
 		}},
+		{Name: "DeleteObject-parent-directory-object", Kind: "other", Build: func(vid string, m map[string]string) *gw.Req {
+			return NewReq("DELETE", "/"+c10Bucket+"/records/", "", nil, nil)
+		}},
 		{Name: "DeleteBucket", Kind: "delete-bucket", Build: func(vid string, m map[string]string) *gw.Req { return NewReq("DELETE", "/"+c10Bucket, "", nil, nil) }},
 		{Name: "PutObjectRetention-shorten-governance", Kind: "retention", Mode: "GOVERNANCE", Date: "shorter", Build: func(vid string, m map[string]string) *gw.Req {
 			return NewReq("PUT", pk, vq("retention", vid), nil, ret("GOVERNANCE", shorter()))
@@ -176,6 +179,12 @@ type c10Sym struct {
 func c10Setup(cfg gw.Opts, stt c10State) (*World, string, map[string]string) {
 	w := NewWorld("c10", cfg)
 	f := w.F
+	// history: the name was used before by a bucket without object lock (written to, queried, emptied, deleted)
+	Must(f.CreateBucket(gw.Root, c10Bucket), "create plain bucket")
+	Must(f.Put(gw.Root, c10Bucket, "old", []byte("x")), "put into plain bucket")
+	f.Do(gw.Root, "GET", "/"+c10Bucket, "object-lock", nil, nil)
+	Must(f.Delete(gw.Root, c10Bucket, "old"), "empty plain bucket")
+	Must(f.Do(gw.Root, "DELETE", "/"+c10Bucket, "", nil, nil), "delete plain bucket")
 	Must(f.CreateBucket(gw.Root, c10Bucket, "x-amz-bucket-object-lock-enabled", "true"), "create lock bucket")
 	Must(f.Do(gw.Root, "PATCH", "/change-bucket-owner", gw.Q("bucket", c10Bucket, "owner", "usr1"), nil, nil), "chown")
 	pol := fmt.Sprintf(`{"Statement":[{"Effect":"Allow","Principal":["usr1","usr2","usr3","up1"],"Action":"s3:*","Resource":["arn:aws:s3:::%s","arn:aws:s3:::%s/*"]},{"Effect":"Deny","Principal":["usr1","usr3"],"Action":"s3:BypassGovernanceRetention","Resource":"arn:aws:s3:::%s/*"},{"Effect":"Deny","Principal":["up1"],"Action":"s3:BypassGovernanceRetention","Resource":"arn:aws:s3:::%s/%s"}]}`, c10Bucket, c10Bucket, c10Bucket, c10Bucket, c10Key)
@@ -183,6 +192,7 @@ func c10Setup(cfg gw.Opts, stt c10State) (*World, string, map[string]string) {
 	if stt.Before != nil {
 		stt.Before(f)
 	}
+	Must(f.Do(gw.Root, "PUT", "/"+c10Bucket+"/records/", "", nil, nil), "put directory object")
 	resp := Must(f.Put(gw.Root, c10Bucket, c10Key, c10Body, "x-amz-meta-guard", "g1", "Content-Type", "text/protected"), "put protected")
 	vid := resp.Header.Get("x-amz-version-id")
 	Must(f.Put(gw.Root, c10Bucket, "other", []byte("copy source data")), "put other")
@@ -226,9 +236,12 @@ func c10Intact(f *Fx, vid string) (bool, string) {
 }
 
 func C10(r *ck.Run) {
-	r.Rule("for every protected state (legal hold, COMPLIANCE +10y, GOVERNANCE +10y, bucket default COMPLIANCE, bucket default GOVERNANCE) × {lock bucket on a gateway with versioning directory, lock bucket on a gateway without}: every program of potentially destructive requests — 17 operations (overwrite by PUT / copy / multipart completion, delete by key / by version / batch / batch that names another locked key first, bucket deletion, retention shorten / extend / downgrade by key and by version, legal hold off, dropping the bucket default rule, suspending versioning, a policy granting bypass to everyone) × 6 callers (root, admin, owner, user with, without, and with a bypass permission that covers other keys only) × bypass header on/off — of length 1 (all symbols) and length 2 (quick: reduced caller set; thorough: all symbols, plus length 3 reduced); after EVERY step the protected version is read back (by version id where versioned) and its lock attributes are compared with a reference model in which protection ends only through a legal-hold release or an authorised governance bypass; distinct = (configuration, state, program)")
+	r.Rule("for every protected state (legal hold, COMPLIANCE +10y, GOVERNANCE +10y, bucket default COMPLIANCE, bucket default GOVERNANCE) × {lock bucket on a gateway with versioning directory, without, with sidecar metadata} (the bucket name was used before by a bucket without object lock; the protected key is records/meta below an explicit directory object records/): every program of potentially destructive requests — 18 operations (deleting the explicit directory object above the protected key, overwrite by PUT / copy / multipart completion, delete by key / by version / batch / batch that names another locked key first, bucket deletion, retention shorten / extend / downgrade by key and by version, legal hold off, dropping the bucket default rule, suspending versioning, a policy granting bypass to everyone) × 6 callers (root, admin, owner, user with, without, and with a bypass permission that covers other keys only) × bypass header on/off — of length 1 (all symbols) and length 2 (quick: reduced caller set; thorough: all symbols, plus length 3 reduced); after EVERY step the protected version is read back (by version id where versioned) and its lock attributes are compared with a reference model in which protection ends only through a legal-hold release or an authorised governance bypass; distinct = (configuration, state, program)")
 	r.Assume("retention dates lie 10 years ahead (1 day for bucket defaults), so no date passes during a run; root and admin may or may not count as holders of the bypass permission (either is admitted); a bucket default retention protects the objects written under it for its period whatever happens to the rule later (S3 stamps it on the object)")
-	cfgs := []gw.Opts{{Versioning: true}, {}}
+	cfgs := []gw.Opts{{Versioning: true}, {}, {Sidecar: true}}
+	if r.Thorough() {
+		cfgs = append(cfgs, gw.Opts{Sidecar: true, Versioning: true})
+	}
 	states := c10States()
 	ops := c10Ops()
 	callers := c10Callers()
@@ -262,7 +275,7 @@ func C10(r *ck.Run) {
 		}
 	}
 	enabler := func(k string) bool {
-		return k == "retention" || k == "hold" || k == "lockconfig" || k == "versioning" || k == "policy"
+		return k == "retention" || k == "hold" || k == "lockconfig" || k == "versioning" || k == "policy" || k == "other"
 	}
 	for _, a := range reduced {
 		for _, b := range second {
@@ -396,6 +409,27 @@ func C10(r *ck.Run) {
 						}
 						if an != "" {
 							r.Violation(ck.JoinSig(stt.Name, verClass(vid), sigCtx, an), map[string]any{"config": fmt.Sprintf("%+v", cfg), "state": stt.Name, "steps": steps})
+						}
+						// the lock attributes themselves, as the API reports them
+						if alive && !stt.Deflt && (currentIsP || vid != "") {
+							vqs := ""
+							if vid != "" {
+								vqs = "&" + gw.Q("versionId", vid)
+							}
+							if hold {
+								lh := w.F.Do(gw.Root, "GET", gw.ObjPath(c10Bucket, c10Key), "legal-hold"+vqs, nil, nil)
+								if !lh.OK() || !bytes.Contains(lh.Body, []byte("<Status>ON</Status>")) {
+									r.Violation(ck.JoinSig(stt.Name, verClass(vid), sigCtx, "legal-hold-no-longer-reported"), map[string]any{"config": fmt.Sprintf("%+v", cfg), "state": stt.Name, "steps": steps, "observation": lh.String()})
+									hold = false
+								}
+							}
+							if mode != "" {
+								rt := w.F.Do(gw.Root, "GET", gw.ObjPath(c10Bucket, c10Key), "retention"+vqs, nil, nil)
+								if !rt.OK() || !bytes.Contains(rt.Body, []byte("<Mode>"+mode+"</Mode>")) {
+									r.Violation(ck.JoinSig(stt.Name, verClass(vid), sigCtx, "retention-no-longer-reported"), map[string]any{"config": fmt.Sprintf("%+v", cfg), "state": stt.Name, "steps": steps, "observation": rt.String(), "model_mode": mode})
+									mode = ""
+								}
+							}
 						}
 						// data invariant
 						if alive {
